@@ -396,8 +396,8 @@ def parse_template(path):
                     w = st2[4:].split()
                     if not w:
                         raise GenError('%s:%d empty directive' % (path, i + 1))
-                    if w[0] == 'rw':
-                        cur_rw = {'rule': w[1], 'ordinal': (0 if w[2] == '#*' else int(w[2][1:])) if len(w) > 2 and w[2].startswith('#') else None}
+                    if w[0] in ('rw', 'rw?'):
+                        cur_rw = {'optional': w[0] == 'rw?', 'rule': w[1], 'ordinal': (0 if w[2] == '#*' else int(w[2][1:])) if len(w) > 2 and w[2].startswith('#') else None}
                         mode = 'rw_old'
                     elif w[0] == 'closure':
                         cur_rw = {'rule': 'R5c', 'ordinal': int(w[1][1:]) if len(w) > 1 and w[1].startswith('#') else None}
@@ -465,7 +465,7 @@ def locate(rel, kind, selector, name, attr=None):
         pre = src[it.attrs_start:it.start]
         if attr is not None and strip_ws(attr.replace('~', ' ')) not in strip_ws(pre):
             continue
-        if attr is None and _cfg_disabled(pre):
+        if _cfg_disabled(pre):
             continue
         hits.append(it)
     if len(hits) != 1:
@@ -503,7 +503,13 @@ def apply_rws(text, d, log):
             if n == 0:
                 raise GenError('rewrite site (%s) not found: %r' % (rw['rule'], rw['old'].strip()[:120]))
             continue
-        a, b = find_span(text, rw['old'], rw['ordinal'], 'rewrite site (%s)' % rw['rule'])
+        try:
+            a, b = find_span(text, rw['old'], rw['ordinal'], 'rewrite site (%s)' % rw['rule'])
+        except GenError as e:
+            if rw.get('optional') and 'not found' in str(e):
+                log.append(('SKIP', strip_ws(rw['old']), 'optional rewrite site absent'))
+                continue
+            raise
         new = rw['new'].strip('\n')
         if rw['rule'].endswith('b') and rw['rule'] != 'R5c' and '@@BODY' in new:
             # block rewrite: anchor is a block header (`for .. in ..`, `match ..`); the `{..}` block that follows it is @@BODY
